@@ -71,7 +71,8 @@ RULE = ("stream 'eng' (5 of 6 cases): random rule systems of harness/rules.py (3
         "populations members_position set explicitly to a within-group permutation that differs from the order of "
         "appearance (value_nth_person / value_from_first_person / get_rank compared original vs restored), optionally every array on "
         "disk; inputs (incl. rolling years, every month, odd days) and calculations, then dump_simulation / "
-        "restore_simulation in a scratch directory (the same dump is restored four times in all, with deletion / "
+        "restore_simulation in a scratch directory, for a third of the cases with keyword options (opt_out_cache with a "
+        "non-empty cache_blacklist, trace, memory_config with variables_to_drop) that must not change what is restored (the same dump is restored four times in all, with deletion / "
         "gc.collect() of restored simulations in between, each compared with the original, and the directory's file "
         "set must not change), then further requests (calculations, inputs, deletions) on both "
         "simulations; a few dumps into a non-empty directory.  stream 'rich' (oracle only): fixed system with Enum / "
@@ -236,7 +237,8 @@ def gen_eng(rng, k):
     rng.shuffle(after)
     for v in sys["vars"]:
         v.pop("divisible", None)
-    return {"kind": "eng", "sys": sys, "pop": pop, "persons_only": persons_only,
+    restore_opts = gen_restore_opts(rng, list(range(len(sys["vars"]))))
+    return {"kind": "eng", "sys": sys, "pop": pop, "persons_only": persons_only, "restore_opts": restore_opts,
             "cfg": {"disk": rng.random() < 0.3}, "dirty": rng.random() < 0.03,
             "requests": before, "later": after}
 
@@ -451,7 +453,36 @@ def again_entry(orig, snap, number):
             "arrays": sum(len(v) for v in snap["vars"].values())}
 
 
-def protocol(sim, tbs, dirty, before, after, request, after_dump=None, after_restore=None):
+def restore_kwargs(opts, name_of):
+    """keyword options for restore_simulation(directory, tbs, **kwargs) from the case's "restore_opts":
+    whatever options are passed, the restored simulation must hold what was dumped"""
+    if not opts:
+        return {}
+    kw = {}
+    if opts.get("opt_out"):
+        kw["opt_out_cache"] = True
+    if opts.get("trace"):
+        kw["trace"] = True
+    if opts.get("memory"):
+        kw["memory_config"] = MemoryConfig(max_memory_occupation=opts["memory"]["max"],
+                                           priority_variables=[name_of(v) for v in opts["memory"].get("priority", [])],
+                                           variables_to_drop=[name_of(v) for v in opts["memory"].get("drop", [])])
+    return kw
+
+
+def gen_restore_opts(rng, variables):
+    """None (two thirds of the cases) or options passed to restore_simulation; `blacklist` becomes
+    the tax-benefit system's cache_blacklist (without effect on the original: opt_out_cache is off)"""
+    if rng.random() < 0.65:
+        return None
+    some = lambda p: [v for v in variables if rng.random() < p]  # noqa: E731
+    opts = {"opt_out": rng.random() < 0.6, "blacklist": some(0.5), "trace": rng.random() < 0.4, "memory": None}
+    if rng.random() < 0.5:
+        opts["memory"] = {"max": rng.choice([0, 0.5, 1]), "priority": some(0.2), "drop": some(0.4)}
+    return opts
+
+
+def protocol(sim, tbs, dirty, before, after, request, after_dump=None, after_restore=None, kwargs=None):
     """Runs before-requests, dump, restore, after-requests.  `request(sim, r)` performs one
     request and returns a canonical answer (exceptions are mapped to Err here).
     Returns a dict; the scratch directory is removed in every case."""
@@ -485,7 +516,7 @@ def protocol(sim, tbs, dirty, before, after, request, after_dump=None, after_res
         out["listing"] = dir_listing(directory)
         if out["dump"] == "ok":
             try:
-                restored = restore_simulation(directory, tbs)
+                restored = restore_simulation(directory, tbs, **(kwargs() if kwargs else {}))
                 restored.max_spiral_loops = sim.max_spiral_loops
                 out["restore"] = "ok"
             except Exception as e:  # noqa: BLE001
@@ -502,7 +533,7 @@ def protocol(sim, tbs, dirty, before, after, request, after_dump=None, after_res
             out["again"] = []
             for drop in (False, True):
                 try:
-                    extra = restore_simulation(directory, tbs)
+                    extra = restore_simulation(directory, tbs, **(kwargs() if kwargs else {}))
                     out["again"].append(again_entry(out["orig"], snapshot(extra), len(out["again"]) + 2))
                 except Exception as e:  # noqa: BLE001
                     out["again"].append(Err(errkind(e), f"{type(e).__name__}: {e}"[:200]))
@@ -513,7 +544,7 @@ def protocol(sim, tbs, dirty, before, after, request, after_dump=None, after_res
                 out["listing"].append(dir_listing(directory))
             extra = None
             try:
-                third = restore_simulation(directory, tbs)
+                third = restore_simulation(directory, tbs, **(kwargs() if kwargs else {}))
                 out["again"].append(again_entry(out["orig"], snapshot(third), len(out["again"]) + 2))
                 del third
             except Exception as e:  # noqa: BLE001
@@ -547,6 +578,8 @@ def run_eng(case):
     with warnings.catch_warnings():
         warnings.simplefilter("ignore")
         tbs = build_system_persons(sys, switches) if po else rules.build_system(sys, switches)
+        if (case.get("restore_opts") or {}).get("blacklist"):
+            tbs.cache_blacklist = {f"v{v}" for v in case["restore_opts"]["blacklist"]}
         sim = build_sim(tbs, pop, case.get("cfg"), sys, po)
 
         def after_dump(out, directory):
@@ -564,7 +597,8 @@ def run_eng(case):
 
         try:
             return protocol(sim, tbs, case.get("dirty"), case["requests"], case["later"],
-                            lambda s, r: rules.do_request(s, sys, switches, r), after_dump, after_restore)
+                            lambda s, r: rules.do_request(s, sys, switches, r), after_dump, after_restore,
+                            kwargs=lambda: restore_kwargs(case.get("restore_opts"), lambda v: f"v{v}"))
         except rules.Inexact:
             return "skip"
 
@@ -798,6 +832,7 @@ def gen_rich(rng, k):
     after = [a_calc() for _ in range(rng.randint(2, 6))] + ([a_set()] if rng.random() < 0.4 else [])
     rng.shuffle(after)
     return {"kind": "rich", "pop": pop, "cfg": {"disk": rng.random() < 0.4}, "dirty": False,
+            "restore_opts": gen_restore_opts(rng, sorted(RICH_INPUTS) + sorted(RICH_FORMULAS)),
             "requests": before, "later": after}
 
 
@@ -899,6 +934,8 @@ def run_rich(case):
     with warnings.catch_warnings():
         warnings.simplefilter("ignore")
         tbs = build_rich_system()
+        if (case.get("restore_opts") or {}).get("blacklist"):
+            tbs.cache_blacklist = set(case["restore_opts"]["blacklist"])
         sb = SimulationBuilder()
         sb.create_entities(tbs)
         sb.declare_person_entity("person", [f"p{i}" for i in pop["pids"]])
@@ -913,7 +950,8 @@ def run_rich(case):
         sim = sb.build(tbs)
         if case["cfg"].get("disk"):
             sim.memory_config = MemoryConfig(max_memory_occupation=0)
-        return protocol(sim, tbs, False, case["requests"], case["later"], rich_request)
+        return protocol(sim, tbs, False, case["requests"], case["later"], rich_request,
+                        kwargs=lambda: restore_kwargs(case.get("restore_opts"), lambda v: v))
 
 
 # ---------------------------------------------------------------------------------------
@@ -1008,6 +1046,10 @@ def oracle(case, obs):
                 return f"later: request {k} {case['later'][k][:3]}: original {a!r}, restored {b!r}"
         elif a != b:
             return f"later: request {k} {case['later'][k][:3]}: original {a!r}, restored {b!r}"
+    if case.get("restore_opts"):
+        # options given to restore may legitimately change what later calculations keep in the
+        # holders (cache opt-out, memory configuration): only the answers are claimed
+        return None
     return compare_snapshots(obs["orig_final"], obs["rest_final"], "after the later requests")
 
 
@@ -1047,6 +1089,8 @@ def classify(case, obs):
             tags.append("inner-empty")
     if pop.get("positions") is not None:
         tags.append("explicit-positions")
+    if case.get("restore_opts"):
+        tags.append("restore-options")
     if case["cfg"].get("disk"):
         tags.append("disk")
     units = {rules.UNITS[e[0][1]] for e in obs.get("cache_rest") or []}
